@@ -606,7 +606,8 @@ vbi3_raw_decoder_decode		(vbi3_raw_decoder *	rd,
 	sp = &rd->sampling;
 
 	scan_lines = sp->count[0] + sp->count[1];
-	pitch = sp->bytes_per_line << sp->interlaced;
+	/* interlaced is a vbi_bool, any non-zero value means TRUE. */
+	pitch = sp->bytes_per_line << !!sp->interlaced;
 
 	pattern = rd->pattern;
 
